@@ -148,12 +148,18 @@ func reverse(s []string) []string {
 func sanitizationContextForAttrVal(element, attr, linkRel string) (sanitizationContext, error) {
 	if element == "link" && attr == "href" {
 		// Special case: safehtml.URL values are allowed in a link element's href attribute if that element's
-		// rel attribute possesses certain values.
+		// rel attribute possesses only certain values. A single other value (e.g. "stylesheet" in
+		// rel="alternate stylesheet") makes the link load a resource that requires a TrustedResourceURL.
 		relVals := strings.Fields(linkRel)
+		allURLLinkRelVals := len(relVals) > 0
 		for _, val := range relVals {
-			if urlLinkRelVals[val] {
-				return sanitizationContextTrustedResourceURLOrURL, nil
+			if !urlLinkRelVals[val] {
+				allURLLinkRelVals = false
+				break
 			}
+		}
+		if allURLLinkRelVals {
+			return sanitizationContextTrustedResourceURLOrURL, nil
 		}
 	}
 	if dataAttributeNamePattern.MatchString(attr) {
